@@ -5,17 +5,20 @@
    array and the generators exactly).  This file contains only the property theorems, closed by
    [exact], and their assumptions.
 
-   All theorems are named _partial relative to C01: they hold for EVERY simple graph, every
-   admissible vertex classes and every fuel, but they give only the first sentence of C01 for the
-   search (the result is a permutation, so the canonical graph is isomorphic to g) and that the
-   returned labelling is one of the leaves of the unpruned tree over which the reference
-   canon_ref of Props/C01.v minimises.  MISSING for the full property: that the leaf kept by the
-   pruned search has the same certificate for every relabelling of g (soundness of the pruning
-   by orbits, by automorphism back-jump and by partial certificates: the McKay-Piperno theorem).
-   That part remains explored only (streams of C01). *)
+   The theorems hold for EVERY simple graph, every admissible vertex classes and every fuel.
+   The theorems named _partial give the first sentence of C01 for the search (the result is a
+   permutation, so the canonical graph is isomorphic to g), that the returned labelling is one of
+   the leaves of the unpruned tree over which the reference canon_ref of Props/C01.v minimises,
+   and that the fuel suffices.  C01_search_maximal and C01_search_label_invariant are the
+   soundness of the pruning (by orbits, by automorphism back-jump and by partial certificates: the
+   McKay-Piperno argument, Canon/SearchInvP.v .. SearchMax.v): the leaf kept has the greatest
+   certificate among ALL the leaves of the unpruned tree, hence the canonical graph computed by the
+   model is the same for every relabelling of the input (vertex classes relabelled with it).
+   NOT proved: that the model never returns Panic (the model of a Go index panic); the theorems speak
+   about the runs that return Ok, and the correspondence stream has never observed a panic. *)
 From Coq Require Import List Arith ZArith Permutation.
 From Mamba Require Import Canon.Perm Canon.Iso Canon.Model Canon.Tree Canon.SearchModel Canon.SearchCells
-  Canon.SearchInit Canon.SearchProofs.
+  Canon.SearchTarget Canon.SearchOrder Canon.SearchEquiv Canon.SearchInit Canon.SearchProofs Canon.SearchMax Canon.SearchInvar.
 Import ListNotations.
 
 (* Whatever the fuel: if the search returns, the returned permutation is a permutation of
@@ -78,6 +81,55 @@ Theorem C01_search_fuel_suffices_partial :
 Proof. intros g cls fuel Hc Hf. exact (search_terminates g cls Hc fuel Hf). Qed.
 Print Assumptions C01_search_fuel_suffices_partial.
 
+(* Soundness of the pruning: the certificate of the returned labelling (the sorted list of the
+   positions of the edges in the upper triangle of the relabelled graph, compared as the code compares
+   it) is the greatest among the certificates of all the leaves of the unpruned tree rooted at the
+   refined initial partition; nothing that Heuristic 1, Heuristic 2 or the partial-certificate cut-off
+   discards contains a better leaf. *)
+Theorem C01_search_maximal :
+  forall (g : graph) (cls : option (list (list nat))) fuel p o gs,
+    simple g -> cls_ok (length g) cls -> 0 < num_edges g ->
+    canon_search fuel g cls = Ok (p, o, gs) ->
+    exists root, refine g (erase (init_cells (length g) cls)) = Some root /\
+      In (Some p) (leaves (length g) g root) /\
+      forall Q, rdesc g root Q -> target Q = None ->
+        cmp_list (certp g (length g) (verts Q)) (certp g (length g) p) <> Gt.
+Proof.
+  intros g cls fuel p o gs Hg Hc Hm H.
+  destruct (search_max g cls Hg Hc fuel p o gs Hm H) as (root & H1 & H2 & _ & H4 & _).
+  exists root. split; [exact H1|]. split; [exact H2|]. exact H4.
+Qed.
+Print Assumptions C01_search_maximal.
+
+(* Label invariance, general form: if f is an isomorphism from g to g' and the vertex classes of g'
+   are the images of those of g, the two runs of the search return the same canonical graph (whatever
+   the fuels, whenever both return). *)
+Theorem C01_search_label_invariant :
+  forall (g g' : graph) (f : nat -> nat) (cls : option (list (list nat))) fuel fuel' p o gs p' o' gs',
+    simple g -> simple g' -> length g' = length g ->
+    (forall u v, u < length g -> v < length g -> adjb g' (f u) (f v) = adjb g u v) ->
+    Permutation (map f (seq 0 (length g))) (seq 0 (length g)) ->
+    cls_ok (length g) cls ->
+    canon_search fuel g cls = Ok (p, o, gs) ->
+    canon_search fuel' g' (option_map (map (map f)) cls) = Ok (p', o', gs') ->
+    relabel g p = relabel g' p'.
+Proof.
+  intros g g' f cls fuel fuel' p o gs p' o' gs' Hg Hg' HL Hadj Hperm Hc H H'.
+  exact (search_invariant g g' f cls Hg Hg' HL (conj Hadj Hperm) Hc fuel fuel' p o gs p' o' gs' H H').
+Qed.
+Print Assumptions C01_search_label_invariant.
+
+(* Label invariance for the canonical graph of the model: relabelling the input by any permutation
+   (no vertex classes) does not change the result. *)
+Theorem C01_search_canon_graph_invariant :
+  forall (g : graph) (sigma : list nat) fuel fuel' h h',
+    simple g -> is_perm (length g) sigma = true ->
+    search_canon_graph fuel (relabel g sigma) None = Ok h ->
+    search_canon_graph fuel' g None = Ok h' ->
+    h = h'.
+Proof. exact search_canon_graph_invariant. Qed.
+Print Assumptions C01_search_canon_graph_invariant.
+
 (* Non-vacuity: the search on the 6-cycle, with and without vertex classes, returns (fuel 100
    suffices; with fuel 3 the distinct result Fuel is returned). *)
 Example C01_search_nonvacuous :
@@ -91,5 +143,6 @@ Example C01_search_nonvacuous :
     Ok ([3; 0; 4; 2; 5; 1], [3; 4; 4; -2; -3; 4]%Z, [[0; 5; 4; 3; 2; 1]; [3; 2; 1; 0; 5; 4]]) /\
   canon_search 3 c6 None = Fuel /\
   canon_ref c6 = Some [0; 1; 5; 2; 4; 3] /\
-  relabel c6 [5; 4; 0; 3; 1; 2] = relabel c6 [0; 1; 5; 2; 4; 3].
-Proof. vm_compute. repeat split. Qed.
+  relabel c6 [5; 4; 0; 3; 1; 2] = relabel c6 [0; 1; 5; 2; 4; 3] /\
+  (exists h, search_canon_graph 100 (relabel c6 [3;0;5;1;4;2]) None = Ok h /\ search_canon_graph 100 c6 None = Ok h).
+Proof. vm_compute. repeat split. eexists. split; reflexivity. Qed.
